@@ -35,7 +35,14 @@ def c_quad(q):
     return ctuple(c_triple(q[:3]), cN(q[3]))
 
 
+SELF = 900  # the Dataset object itself given as a graph: it is addressed by its own (private, blank-node) identifier
+
+
 def c_garg(a):
+    if a[0] == "self":
+        # ConjunctiveGraph._graph hands a Dataset/ConjunctiveGraph argument back as it is: the store then keys it by the
+        # object's identifier, i.e. it behaves as that identifier (a ConjunctiveGraph's identifier IS its default graph's)
+        return f"(GId {cN(a[1])})"
     if a[0] == "id":
         return f"(GId {cN(a[1])})"
     if a[0] == "view":
@@ -69,6 +76,8 @@ def c_op(op):
         return f"OQuads {c_pat(op[1])} {c_ctxarg(op[2])}"
     if k == "in":
         return f"OContains {c_pat(op[1])} {c_ctxarg(op[2])} {cbool(op[3])}"
+    if k == "ctxs":
+        return f"OContexts {c_triple(op[1])}"
     raise ValueError(k)
 
 
@@ -82,6 +91,10 @@ def c_res(r):
     k = r[0]
     if k == "none":
         return "RNone"
+    if k == "self":
+        return "RSelf"
+    if k == "names":
+        return "RNames " + clist(cN(x) for x in r[1])
     if k == "triples":
         return "RTriples " + clist(c_triple(t) for t in r[1])
     if k == "quads":
@@ -111,8 +124,8 @@ class World:
     """One front end (Dataset or ConjunctiveGraph) over one Memory store, with the
     bookkeeping that turns graph names into numbers and back."""
 
-    def __init__(self, is_ds, names, default_union=False):
-        self.store = Memory()
+    def __init__(self, is_ds, names, default_union=False, store=None):
+        self.store = Memory() if store is None else store
         self.is_ds = is_ds
         if is_ds:
             self.d = Dataset(store=self.store, default_union=default_union)
@@ -131,6 +144,8 @@ class World:
     def name(self, c):
         if c == 0:
             return self.default_id
+        if c == SELF:
+            return self.d.identifier
         if c >= FRESH_BASE:
             return self.fresh[c - FRESH_BASE]
         return GRAPH_POOL[c - 1]
@@ -143,6 +158,8 @@ class World:
         k = tkey(ident)
         if k == tkey(self.default_id):
             return 0
+        if k == tkey(self.d.identifier):
+            return SELF
         if k in GRAPH_ID:
             return GRAPH_ID[k]
         for i, f in enumerate(self.fresh):
@@ -153,6 +170,8 @@ class World:
     def garg(self, a):
         if a is None:
             return None
+        if a[0] == "self":
+            return self.d
         if a[0] == "id":
             return self.name(a[1])
         if a[0] == "view":
@@ -183,6 +202,10 @@ def pat_terms(p):
     return tuple(None if x is None else term(x) for x in p)
 
 
+def _ret_self(d, r):
+    return ["self"] if r is d else ["exc"]
+
+
 def do_op(w: World, op):
     d = w.d
     k = op[0]
@@ -195,29 +218,36 @@ def do_op(w: World, op):
             c = op[2][1][1]
             v = w.pre[c] if via == "pre" and c in w.pre else Graph(w.store, identifier=w.name(c))
             v.add(pat_terms(op[1]))
-        else:
-            d.add(w.toq(pat_terms(op[1]), op[2]))
+            return ["self"]
+        return _ret_self(d, d.add(w.toq(pat_terms(op[1]), op[2])))
     elif k == "addn":
-        d.addN([pat_terms(t) + (w.garg(a),) for t, a in op[1]])
+        return _ret_self(d, d.addN([pat_terms(t) + (w.garg(a),) for t, a in op[1]]))
     elif k == "rem":
-        d.remove(w.toq(pat_terms(op[1]), op[2]))
+        return _ret_self(d, d.remove(w.toq(pat_terms(op[1]), op[2])))
     elif k == "graph":
         x = w.garg(op[1])
         w.ngraph += 1
         g = d.graph(x) if w.ngraph % 2 else d.add_graph(x)
         if op[1] is None:
             w.fresh.append(g.identifier)
+        # the graph handed back: a Graph on THIS store, reported by its name
+        return ["names", [w.gid(g.identifier) if isinstance(g, Graph) and g.store is w.store else 997]]
     elif k == "rmgraph":
-        d.remove_graph(w.garg(op[1]))
+        return _ret_self(d, d.remove_graph(w.garg(op[1])))
     elif k == "rmctx":
-        d.remove_context(Graph(w.store, identifier=w.name(op[1])))
+        r = d.remove_context(Graph(w.store, identifier=w.name(op[1])))
+        return ["none"] if r is None else ["exc"]
     elif k == "triples":
         d.default_union = bool(op[4])
         toq = w.toq(pat_terms(op[1]), op[2])
         if op[3] is None:
             return ["triples", w.triples_out(d.triples(toq))]
         return ["triples", w.triples_out(d.triples(toq, context=w.garg(op[3])))]
+    elif k == "ctxs":
+        t = pat_terms(op[1])
+        return ["names", sorted(w.gid(g.identifier) for g in (d.graphs(t) if w.is_ds else d.contexts(t)))]
     elif k == "quads":
+        d.default_union = w.wdu  # quads() must not look at the flag either
         if op[2] == "t" and op[1] == [None, None, None]:
             return ["quads", w.quads_out(d.quads())]
         return ["quads", w.quads_out(d.quads(w.toq(pat_terms(op[1]), op[2])))]
@@ -303,6 +333,8 @@ class C02(Suite):
         def garg(write):
             r = rng.random()
             c = pick_name()
+            if r < 0.03:
+                return ["self", SELF if is_ds else 0]  # the front-end object itself as the graph
             if r < 0.7:
                 return ["id", c]
             if r < (0.88 if write else 0.93) or c >= FRESH_BASE:
@@ -367,7 +399,7 @@ class C02(Suite):
                     ops.append(["graph", garg(True)])
             elif r < 0.72 and is_ds:
                 a = garg(True) if rng.random() < 0.93 else None
-                if a is not None and rng.random() < 0.2:
+                if a is not None and a[0] != "self" and rng.random() < 0.2:
                     a = [a[0], 0] + a[2:]
                 ops.append(["rmgraph", a])
             elif r < 0.75:
@@ -387,11 +419,13 @@ class C02(Suite):
                 if added and rng.random() < 0.5:
                     p, ca = aimed_read()
                 ops.append(["quads", p, ca])
-            else:
+            elif r < 0.97:
                 p, ca = pattern(), ctxarg(False, 0.3)
                 if added and rng.random() < 0.6:
                     p, ca = aimed_read()
                 ops.append(["in", p, ca, rng.random() < 0.5])
+            else:
+                ops.append(["ctxs", rng.choice(added)[0] if added and rng.random() < 0.7 else rng.choice(vocab)])
         if rng.random() < 0.12:
             # a graph emptied by a removal that names NO graph, then removed, then written to again
             g = rng.choice([c for c in used if c != 0] or [1])
@@ -430,6 +464,8 @@ class C02(Suite):
                     ops.append(["triples", p1, "t", None, True])
             if g0 not in names and g0 < FRESH_BASE:
                 names = sorted(names + [g0])
+        if is_ds and any(a[0] == "self" for o in ops for a in _gargs(o)) and SELF not in names:
+            names = names + [SELF]
         return {"ds": is_ds, "wdu": wdu, "names": names, "vocab": vocab, "ops": ops}
 
     # ------------------------------------------------------------ implementation
@@ -507,21 +543,23 @@ class C02(Suite):
             ["add", t2, ["q", ["view", 1]]], ["add", t2, ["q", ["foreign", 3, [t1]]]],
             ["rem", t1, "t"], ["rem", t1, ["q", ["id", 1]]], ["rem", [None, 3, None], ["q", ["id", 3]]],
             ["rem", [None, None, None], ["q", ["id", 0]]], ["rem", t1, ["q", ["view", 0]]],
-            ["graph", ["id", 1]], ["rmgraph", ["id", 1]], ["rmgraph", ["id", 0]], ["rmgraph", ["view", 3]],
+            ["graph", ["id", 1]], ["add", t2, ["q", ["self", SELF]]], ["rmgraph", ["id", 1]], ["rmgraph", ["id", 0]], ["rmgraph", ["view", 3]],
             ["rmctx", 1],
         ]
-        tails = [["triples", [None, None, None], "t", ["view", 1], True],
+        tails = [["ctxs", t1], ["triples", [None, None, None], "t", ["view", 1], True],
                  ["triples", [None, 3, None], ["q", ["id", 3]], None, False],
                  ["in", t1, ["q", ["view", 1]], True]]
         for n in (1, 2, 3):
             for seq in itertools.product(alphabet, repeat=n):
                 for is_ds in ((True, False) if n < 3 else (True,)):
                     ops = [list(o) for o in seq]
+                    if not is_ds:  # a ConjunctiveGraph's own identifier is its default graph's
+                        ops = [o[:2] + [["q", ["self", 0]]] if o[0] == "add" and o[2] != "t" and o[2][1] and o[2][1][0] == "self" else o for o in ops]
                     if not is_ds and any(o[0] in ("graph", "rmgraph") for o in ops):
                         continue
                     for wdu in ((False, True) if n < 3 else (False,)):
                         yield {"ds": is_ds, "wdu": wdu, "names": [0, 1, 3, 2], "vocab": [t1, t2],
-                               "ops": ops + [tails[(len(ops) + hash(str(ops))) % 3]]}
+                               "ops": ops + [tails[(len(ops) + hash(str(ops))) % 4]]}
         # a graph emptied by a removal naming no graph, removed, then written to again (front end / views)
         for g in (1, 3):
             for rem in (["rem", t1, "t"], ["rem", t1, ["q", None]], ["rem", [None, None, None], "t"]):
@@ -558,11 +596,11 @@ TRUSTED = [
 ]
 ASSUMPTIONS = [
     "store is rdflib.plugins.stores.memory.Memory; one front-end object per history plus Graph(store, name) views",
-    "graph names are URIRef/BNode with non-empty strings; the Dataset/ConjunctiveGraph object itself is never passed as a graph",
-    "Dataset.graphs(triple) / contexts(triple) with a triple argument are not modelled",
+    "graph names are URIRef/BNode with non-empty strings",
 ]
-RULE = ("histories of 2-12 operations (add / addN / remove by triple, quad or pattern / graph() / remove_graph() / "
-        "remove_context / restricted reads) over 2-5 triples from a 2x2x2 vocabulary with falsy literals and 2-4 graph names "
-        "out of default, two IRIs, two blank nodes (one with the same string as an IRI); graph arguments are identifiers, "
-        "same-store Graph objects or foreign Graph objects; distinct by full case content; non-trivial = some add, some "
+RULE = ("histories of 2-16 operations (add / addN / remove by triple, quad or pattern / graph() / remove_graph() / "
+        "remove_context / restricted reads / graphs(triple); return values observed) over 2-5 triples from a 2x2x2 vocabulary "
+        "with falsy literals and 2-4 graph names out of default, two IRIs, two blank nodes (one with the same string as an IRI); "
+        "graph arguments are identifiers, same-store Graph objects, foreign Graph objects or the Dataset object itself; writes run "
+        "under default_union on or off, adds also through Graph views; distinct by full case content; non-trivial = some add, some "
         "removal and quads in at least two graphs at some step")
